@@ -319,3 +319,34 @@ Definition exec (sf : key -> sid) (ns : N) (s : state) (e : label) : option stat
       end
   | LRecycle sl t => Some (mkSt (recycle_slot (lat s) sl t) (pc s) (chan s) (sch s) (started s) (gl s))
   end.
+
+(* ---- the caller contract, over traces of client actions of LatchesScheduler ----
+   CLock i st: Lock(st, keys) called for lock i;  CRet i stale: that call returned with IsStale() = stale;
+   CUnlock i c: SetCommitTS(c) (c = 0: not set) followed by UnLock(lock i).
+   client_ok: per lock the actions are Lock, then its return, then exactly one UnLock; nothing else; a commit ts is
+   set only on a lock that is not stale and is greater than the start ts; and (the obligation a finished trace must
+   have met) every lock that returned has been handed back. *)
+Inductive cact := CLock (i : lid) (st : ts) | CRet (i : lid) (stale : bool) | CUnlock (i : lid) (c : ts).
+Inductive cst := CSLocked (st : ts) | CSReturned (st : ts) (stale : bool) | CSUnlocked.
+Fixpoint cfind (i : lid) (m : list (lid * cst)) : option cst :=
+  match m with [] => None | (j, c) :: r => if Nat.eqb j i then Some c else cfind i r end.
+Definition cset (i : lid) (c : cst) (m : list (lid * cst)) : list (lid * cst) := (i, c) :: m.
+Fixpoint client_run (tr : list cact) (m : list (lid * cst)) : option (list (lid * cst)) :=
+  match tr with
+  | [] => Some m
+  | CLock i st :: r => match cfind i m with None => client_run r (cset i (CSLocked st) m) | Some _ => None end
+  | CRet i b :: r => match cfind i m with Some (CSLocked st) => client_run r (cset i (CSReturned st b) m) | _ => None end
+  | CUnlock i c :: r =>
+      match cfind i m with
+      | Some (CSReturned st b) =>
+          if N.eqb c 0 || (negb b && N.ltb st c) then client_run r (cset i CSUnlocked m) else None
+      | _ => None
+      end
+  end.
+Fixpoint ids_of (tr : list cact) : list lid :=
+  match tr with [] => [] | (CLock i _ | CRet i _ | CUnlock i _) :: r => i :: ids_of r end.
+Definition client_okb (tr : list cact) : bool :=
+  match client_run tr [] with
+  | Some m => forallb (fun i => match cfind i m with Some (CSReturned _ _) => false | _ => true end) (ids_of tr)
+  | None => false
+  end.
